@@ -1141,9 +1141,12 @@ func (w *WAL) getEntriesFromFile(filename string, minSequence uint64) ([]*Entry,
 			if err == io.EOF {
 				break
 			}
-			// Skip corrupted entries but continue reading
-			if strings.Contains(err.Error(), "corrupt") || strings.Contains(err.Error(), "invalid") {
-				continue
+			// The same rule as ReplayWALFile, so that what is served from the log is
+			// what recovery has applied: a record cut short by a crash or a damaged
+			// record ends this file, the entries in front of it are good
+			if errors.Is(err, io.ErrUnexpectedEOF) || strings.Contains(err.Error(), "unexpected EOF") ||
+				strings.Contains(err.Error(), "corrupt") || strings.Contains(err.Error(), "invalid") {
+				break
 			}
 			return entries, err
 		}
